@@ -1,10 +1,10 @@
 (** C10 - failures stay contained; the exit status tells the truth.
     Statements only; proofs in Proofs/MachineP.v.  Tied to rebench/executor.py and rebench/rebench.py by
     harness/c10.py. *)
-From Coq Require Import List ZArith Bool Arith.
+From Coq Require Import List ZArith Bool Arith Lia.
 Import ListNotations.
 From RV Require Import Gen.GenTermination Model.Retry Model.Machine Proofs.MachineP.
-From RV Require Import Lib.Str Model.Format Gen.GenUi Gen.GenMain Proofs.FormatP Gen.GenFilter Model.FilterArgs Proofs.FilterArgsP.
+From RV Require Import Lib.Str Model.Format Gen.GenUi Gen.GenMain Proofs.FormatP Gen.GenFilter Model.FilterArgs Proofs.FilterArgsP Gen.GenMessages.
 
 (** Containment: take two worlds that agree on run r (its description, what its processes do, the
     builds it needs) and differ arbitrarily in every other run - other runs may succeed, fail from
@@ -101,6 +101,24 @@ Proof.
   apply format_app; [apply format_escape | reflexivity].
 Qed.
 Print Assumptions C10_messages_never_fail.
+
+(** EVERY text that reaches the renderer, anywhere in rebench/ (Gen/GenMessages.v lists each call of a rendering method of the UI
+    and each UIError construction, read off all modules on every run): it is assembled only from template text, the indent
+    placeholder, numbers and text that went through escape_braces (all_messages_clean - false before the repairs c2f9cca and
+    306ca56, when names, paths, exception texts and server responses were concatenated as they came).  The fragments of
+    template text all render, for any indent; hence ANY assembly of them - any order, any number of repetitions, any escaped
+    texts, any numbers - renders and shows each escaped text unchanged. *)
+Theorem C10_every_message_renders :
+  all_messages_clean = true /\ (60 <= n_message_sites)%nat
+  /\ forallb renders message_literals = true
+  /\ (forall ind ps,
+        (forall t, In (PLit t) ps -> In t message_literals \/ brace_free t = true) ->
+        py_format ind (concat (map piece_tmpl ps)) = FOk (concat (map (piece_text ind) ps))).
+Proof.
+  split; [vm_compute; reflexivity|]. split; [vm_compute; lia|]. split; [vm_compute; reflexivity|].
+  apply assembled_message_renders. vm_compute. reflexivity.
+Qed.
+Print Assumptions C10_every_message_renders.
 
 (** Usage errors: every argument after the experiment name reaches the filter chain of _RunFilter (read off
     rebench.py and configurator.py on every run).  For EVERY argument string the chain either accepts it through one
